@@ -80,7 +80,7 @@ Definition build_headers_frames (cfg : config) (f : hflags) (hs : list hitem) (L
   | PUnicodeError => (consumed, Crash UnicodeDecodeError)
   | PAll =>
       match header_blocks L (s_max_out_frame s) with
-      | [] => (consumed, Crash IndexError)
+      | [] => (consumed, Ok [first true consumed 0])      (* an empty block is sent as one empty frame *)
       | [c] => (consumed, Ok [first true consumed c])
       | c :: rest =>
           (consumed,
@@ -192,7 +192,7 @@ Definition process_received_headers (cfg : config) (f : hflags) (hs : list hitem
   | IOk h => Ok h
   | IProtocolError => perr
   | IIndexError => Crash IndexError
-  | IUnicodeError => Crash UnicodeDecodeError
+  | IUnicodeError => perr                       (* _decode_headers turns UnicodeDecodeError into ProtocolError *)
   end.
 
 Definition receive_push_promise_in_band (cfg : config) (promised : Z) (hs : list hitem) : SM (list event) :=
